@@ -220,11 +220,21 @@ def _span_validated(E, hc, span_call):
             for st2 in exprs(hc["body"], "SLet"):
                 if on in pat_bindings(st2["pat"]) and "init" in st2:
                     m = strip(st2["init"])
+                    sc = None
                     if m.get("k") == "Match":
+                        # match expect(input, "-") { Ok(rest) => rest, Err(_) => input }
                         sc = strip(m["scrut"])
-                        if sc.get("k") == "Call" and norm(sc.get("callee", "")) == "lex::expect" and \
-                                local_name(sc["args"][0]) == a0 and lit_value(sc["args"][1]) == "-":
-                            return True, "optional `-` (expect) followed by a digit run"
+                        arms_ok = all((pat_variant(a_["pat"]) == "core::result::Result::Ok" and local_name(tail(a_["body"])) in pat_bindings(a_["pat"])) or
+                                      (pat_variant(a_["pat"]) != "core::result::Result::Ok" and local_name(tail(a_["body"])) == a0)
+                                      for a_ in m["arms"])
+                        if not arms_ok:
+                            sc = None
+                    elif m.get("k") == "MethodCall" and m["m"] == "unwrap_or" and local_name(m["args"][0]) == a0:
+                        # expect(input, "-").unwrap_or(input)
+                        sc = strip(m["recv"])
+                    if sc is not None and sc.get("k") == "Call" and norm(sc.get("callee", "")) == "lex::expect" and \
+                            local_name(sc["args"][0]) == a0 and lit_value(sc["args"][1]) == "-":
+                        return True, "optional `-` (expect) followed by a digit run"
     return False, "span bounds not derived from a digit lexer"
 
 
@@ -235,40 +245,42 @@ def rule_radix(E, R):
     if not h:
         R.cannot(rule, fn, "anchor not found")
     else:
-        table = {}
-        neg_in = set()
-        for n, st in walk_arms(h["body"]):
-            if n.get("k") == "Call" and norm(n.get("callee", "")) == "rhs_types::int::parse_number":
-                radix = lit_value(n["args"][1])
-                # classify by the chain of enclosing ifs
-                conds = []
-                for ent in st:
-                    if ent[0] == "if":
-                        conds.append(ent)
-                table[radix] = conds
-        # conditions: find the If nodes
-        ifs = {id(i): i for i in exprs(h["body"], "If")}
+        import sem
+        S = sem.Sem(E, h, inline=False)
 
-        def cond_kind(i):
-            cond = i["cond"]
-            lits = [x["lit"].get("v") for x in exprs(cond, "Lit")]
+        def kind_of(atom):
+            nodes = [v.node for v in (atom.scruts or [])] + ([atom.node] if atom.node is not None else [])
+            lits = [x["lit"].get("v") for n_ in nodes for x in exprs(S.resolve(n_, atom.frame).node, "Lit")]
+            meths = [c_["m"] for n_ in nodes for c_ in exprs(S.resolve(n_, atom.frame).node, "MethodCall")]
             if "0x" in lits:
                 return "0x"
-            if "0" in lits and any(c["m"] == "starts_with" for c in exprs(cond, "MethodCall")):
+            if "0" in lits and "starts_with" in meths:
                 return "lead0"
             return "?"
+
+        def desc_of(pc):
+            out = []
+            for atom, pol in sem.literals(pc)[0]:
+                k_ = kind_of(atom)
+                if k_ == "?":
+                    continue
+                # `is(expect(..); Ok)` true / `is(..; Err)` true are the two polarities of the same test
+                if atom.kind == "is" and {sem.variant_head(y[0]) for y in atom.alts} == {"Result::Err"}:
+                    pol = not pol
+                if (k_, pol) not in out:
+                    out.append((k_, pol))
+            return tuple(out)
         got = {}
-        for radix, conds in table.items():
-            desc = tuple((cond_kind(ifs[c[1]]), c[2]) for c in conds if c[1] in ifs)
-            got[radix] = desc
+        neg_in = set()
+        for x in S.sites():
+            n = x.node
+            if n.get("k") == "Call" and norm(n.get("callee", "")) == "rhs_types::int::parse_number":
+                got[lit_value(n["args"][1])] = desc_of(x.pc)
+            if n.get("k") == "Call" and norm(n.get("callee", "")) == "lex::expect" and lit_value(n["args"][1]) == "-":
+                neg_in.add(desc_of(x.pc))
         want = {16: (("0x", True),), 8: (("0x", False), ("lead0", True)), 10: (("0x", False), ("lead0", False))}
         R.check(got == want, rule, fn, "prefix -> radix table: 0x->16, leading 0->8, otherwise 10",
                 "extracted %s" % got, h["span"])
-        # the optional '-' only on the decimal branch
-        for n, st in walk_arms(h["body"]):
-            if n.get("k") == "Call" and norm(n.get("callee", "")) == "lex::expect" and lit_value(n["args"][1]) == "-":
-                desc = tuple((cond_kind(ifs[c[1]]), c[2]) for c in st if c[0] == "if" and c[1] in ifs)
-                neg_in.add(desc)
         R.check(neg_in == {want[10]}, rule, fn, "a `-` sign is accepted on the decimal branch only",
                 "found on %s" % sorted(neg_in), h["span"])
     for fn, digits, radix in (("rhs_types::bytes::hex_byte", 2, 16), ("rhs_types::bytes::oct_byte", 3, 8)):
